@@ -106,5 +106,14 @@ func TakeRuntimeContext() *RuntimeContext {
 }
 
 func ReleaseRuntimeContext(ctx *RuntimeContext) {
+	// Drop the references kept alive for the finished call. The backing array
+	// of KeepRefs is scanned by the collector in full while the context sits in
+	// the pool, and after MarshalNoEscape it may hold pointers into a stack
+	// frame that no longer exists.
+	refs := ctx.KeepRefs[:cap(ctx.KeepRefs)]
+	for i := range refs {
+		refs[i] = nil
+	}
+	ctx.KeepRefs = ctx.KeepRefs[:0]
 	runtimeContextPool.Put(ctx)
 }
